@@ -213,7 +213,10 @@ class FieldInvariants:
                 if e[0] == 'store' and e[2] and e[2][-1][0] == 'f' and e[2][-1][1] == field and e[2][-1][2] == owner:
                     v = e[3]
                     if v is not None and T.is_int(v):
-                        out.append(r.state.env.av(v))
+                        av = r.state.env.av(v)
+                        if av.hi == mask(v[1]) and not av.m0 and v[0] == 'o':
+                            av = _exact_bits(v, r.state.env) or av
+                        out.append(av)
                     else:
                         out.append(AV(bits))
                 elif e[0] == 'store':
@@ -231,3 +234,25 @@ class FieldInvariants:
                             and fname not in getattr(self, 'ctor_fns', {}).get((owner, field), ()):
                         pass  # the constructed value is returned / stored: covered by the aggregate walk above
         return out
+
+
+def _exact_bits(t, env):
+    """known-zero / known-one bits of a stored value from its exact bit-level form (used when the interval x known-bits
+    evaluation gives nothing, e.g. `1 << TABLE[i]`): an AV with those bits, or None"""
+    from . import bvproof
+    from .bdd import Unsupported
+    try:
+        m, conv, K = bvproof.setup(env, atoms=True)
+        v = conv(t)
+    except (Unsupported, RecursionError):
+        return None
+    m0 = m1 = 0
+    for i, b in enumerate(v.b):
+        if m.AND(K, b) == 0:
+            m0 |= 1 << i
+        elif m.AND(K, m.NOT(b)) == 0:
+            m1 |= 1 << i
+    if not m0 and not m1:
+        return None
+    w = t[1]
+    return AV(w, m1, mask(w) & ~m0, m0, m1)
